@@ -2,7 +2,7 @@
    "Secure" for an RRset = the verdict that makes DnssecDnsHandle mark its records Proof::Secure.
    The signature primitive [verify] is a parameter of every theorem (any function). *)
 From HV Require Import Lib.Base C06.Model C06.TimeProofs C06.SigProofs C06.TbsProofs
-     C06.CacheProofs C06.HistoryProofs C06.ResponseProofs C06.Witness.
+     C06.CacheProofs C06.HistoryProofs C06.ResponseProofs C06.WitnessProofs.
 From Coq Require Import Permutation.
 Open Scope N_scope.
 
